@@ -212,7 +212,7 @@ func (m *Model) anchorMonitorSet() *ssa.Function   { return m.monitorStorer(fals
 func (m *Model) anchorMonitorReset() *ssa.Function { return m.monitorStorer(true, "Reset") }
 
 func (m *Model) monitorStorer(wantNil bool, fallback string) *ssa.Function {
-	g := m.monitorGlobal()
+	g, _ := m.monitorCell()
 	var found []*ssa.Function
 	if g != nil {
 		for _, f := range m.Src {
@@ -222,7 +222,7 @@ func (m *Model) monitorStorer(wantNil bool, fallback string) *ssa.Function {
 			hit := false
 			eachInstr(f, func(in ssa.Instruction) {
 				st, ok := in.(*ssa.Store)
-				if !ok || st.Addr != ssa.Value(g) {
+				if !ok || !(m.isMonitorCellAddr(st.Addr) || st.Addr == ssa.Value(g)) {
 					return
 				}
 				c, isConst := st.Val.(*ssa.Const)
